@@ -187,8 +187,12 @@ impl View {
 
         if self.mask_monomorphic {
             let raw = scs.inner_mut().as_mut_slice();
-            raw[0] = 0.0;
-            raw[raw.len() - 1] = 0.0;
+            if let Some(first) = raw.first_mut() {
+                *first = 0.0;
+            }
+            if let Some(last) = raw.last_mut() {
+                *last = 0.0;
+            }
         }
 
         if self.normalize {
